@@ -170,6 +170,35 @@ def rule_concrete(rep, pdoc):
     return n
 
 
+def rule_coerce(rep):
+    """The six CoerceFrom impls are plain numeric conversions (`value` or `value as Self`): the only way numbers enter the sample domain."""
+    facts = rep.ctx.facts
+    R = "R-C17-coerce"
+    n = 0
+    for rel, im in facts.impls:
+        if im.get("trait_name") != "CoerceFrom":
+            continue
+        for fn in im["fns"]:
+            if fn["name"] != "coerce_from":
+                continue
+            n += 1
+            p = fn["params"][0]["name"]
+            st = fn["body"]["stmts"]
+            e = st[0]["e"] if len(st) == 1 and st[0]["k"] == "expr" else None
+            ok = e is not None and (ir.is_path(e, p) or (e.get("k") == "cast" and ir.is_path(e["e"], p) and e["ty"].replace(" ", "") == im["self_ty"]))
+            rep.ob(R, "%s for %s" % (im["trait"], im["self_ty"]), ok, "coerce_from must be `value` or `value as %s` (got %s)" % (im["self_ty"], ir.show(fn["body"])[:60]), ir.loc(fn))
+    # Sample::coerce delegates to CoerceFrom, nothing else
+    tr = facts.traits.get("Sample")
+    ok = False
+    if tr:
+        for fn in tr["fns"]:
+            if fn["name"] == "coerce" and fn.get("body"):
+                st = fn["body"]["stmts"]
+                ok = len(st) == 1 and st[0]["k"] == "expr" and ir.show(st[0]["e"]) == "Self::coerce_from(%s)" % fn["params"][0]["name"]
+    rep.ob(R, "Sample::coerce", ok, "Sample::coerce(value) must be Self::coerce_from(value)", "src/sample.rs")
+    return n
+
+
 def run(rep):
     ctx = rep.ctx
     try:
@@ -179,6 +208,7 @@ def run(rep):
         return rep.finish(level="other", explanation="MIR extraction failed")
     rep.guarded("R-C17-noninterference", rule_generic, pdoc)
     rep.guarded("R-C17-concrete", rule_concrete, pdoc)
+    rep.guarded("R-C17-coerce", rule_coerce)
     if ctx.tier == "thorough":
         try:
             p2 = mir.mode_p(ctx.repo, features=["--no-default-features"], tag="nofft")
@@ -197,9 +227,11 @@ def run(rep):
             rep.anchor_missing("R-C17-noninterference[no-default-features]", str(e)[-300:])
     rep.floor("R-C17-noninterference", 90)
     rep.floor("R-C17-concrete", 16)
+    rep.floor("R-C17-coerce", 7)
     rep.clause("R-C17-noninterference", "in every generic body of the crate a value of the sample type (T, &T, Complex<T>, [T; n], SIMD vectors) is never passed to a call that returns a non-sample value, "
                                         "and containers of samples reach non-container results only through reviewed shape functions (len, capacity) or the crate's own functions (checked inductively); "
                                         "generic code cannot compare or cast T otherwise, so all control decisions and frame counts are independent of sample values and of the choice f32/f64")
+    rep.clause("R-C17-coerce", "the six CoerceFrom impls are `value` / `value as Self` and Sample::coerce only delegates: position and size values enter the sample domain through plain conversions")
     rep.clause("R-C17-concrete", "the concrete f32/f64 trait impls (Sample, CoerceFrom, SIMD kernels) contain no float comparison, no float->integer cast and no call turning a float into bool/integer")
     rep.not_decided += ["'equals the f64 output rounded to f32 within k·eps' (numerical)", "position arithmetic uses concrete f64/f32 identically in both instantiations (it is the same monomorphic-independent code)"]
     rep.trusted += ["rustc MIR and trait resolution (nightly)", "parametricity of generic std code in T", "the reviewed declassification table (4 entries, listed in samples)"]
